@@ -6,6 +6,7 @@ package main
 import (
 	"fmt"
 	"os"
+	"runtime/debug"
 	"math/big"
 	"sort"
 	"strings"
@@ -469,7 +470,7 @@ func (in *Interp) RunConfig(cfg *Config, maxPaths int64, deadline time.Time) *Re
 					case mergeAbort:
 						end = pathEnd{kind: endUnsupported, msg: "merge abort escaped: " + e.why}
 					default:
-						fmt.Fprintf(os.Stderr, "ENGINE PANIC: %v\nSSA stack:\n", r)
+						fmt.Fprintf(os.Stderr, "ENGINE PANIC: %v\n%s\nSSA stack:\n", r, debug.Stack())
 						for _, f := range in.callStack {
 							fmt.Fprintf(os.Stderr, "  %s\n", f)
 						}
